@@ -154,6 +154,7 @@ static Plan makePlan(const Config& cfg, const Part& part, uint64_t idx) {
 	if (!fam) throw std::runtime_error("unknown family " + part.family);
 	uint64_t seed = runSeed(cfg.baseSeed, cfg.prop, part.family, idx);
 	Rng rng(seed);
+	g_genIndex = idx;
 	Plan p = fam->generate(cfg.prop, rng, cfg.thorough);
 	p.property = cfg.prop;
 	p.family = part.family;
